@@ -40,10 +40,22 @@ def run_case(args):
             out, err, rc = runner.run_opensmt(binary, sc, None, timeout=timeout)
             res.append((name, runner.answers(out) if rc != "timeout" else "timeout", sc))
         return {"idx": idx, "logic": "corpus", "script": script, "runs": res}
+    if isinstance(idx, tuple):                     # difference-logic graph shapes under the logic and its embeddings only
+        rng = random.Random(f"c05-dl-{seed}-{idx[1]}")
+        logic = ["QF_IDL", "QF_RDL"][idx[1] % 2]
+        p, a, script = [gen.dl_chain, gen.dl_chain, gen.dl_paths][idx[1] % 3](logic, rng)
+        res = []
+        for name, sc in [("default", script)] + [(f"logic={l2}", script.replace(f"(set-logic {logic})", f"(set-logic {l2})")) for l2 in EMBED[logic][:1]]:
+            out, err, rc = runner.run_opensmt(binary, sc, None, timeout=timeout)
+            res.append((name, runner.answers(out) if rc != "timeout" else "timeout", sc))
+        return {"idx": f"dl{idx[1]}", "logic": logic, "script": script, "runs": res}
     rng = random.Random(f"c05-{seed}-{idx}")
     logic = LOGICS[idx % len(LOGICS)]
     fam = idx % 7
-    if fam == 5:
+    if fam == 4 and logic in ("QF_IDL", "QF_RDL"):
+        # dense conjunctions of difference constraints: the difference-logic solvers against the Simplex of the embedding logic
+        p, a, script = rng.choice([gen.dl_conjunction, gen.dl_paths, gen.dl_chain])(logic, rng)
+    elif fam == 5:
         # short clauses over few Boolean and theory atoms: propositional conflicts among theory atoms
         p, script, checks = gen.clausal_history(logic, rng, steps=rng.choice([None, 10]))
         if rng.random() < 0.5:                      # a single query: the same clauses without the history
@@ -72,7 +84,7 @@ def run(tier):
     n, k = (110, 7) if tier == "quick" else (2000, 15)
     with mp.Pool(min(common.JOBS, 14)) as pool:
         corpus = sorted(str(f) for f in (common.VERIF / "corpus" / "C05").glob("*.smt2"))
-        results = pool.map(run_case, [(i, chk.seed, binary, k, 8 if tier == "quick" else 30) for i in corpus + list(range(n))], chunksize=2)
+        results = pool.map(run_case, [(i, chk.seed, binary, k, 8 if tier == "quick" else 30) for i in corpus + list(range(n)) + [("dl", j) for j in range(300 if tier == "quick" else 6000)]], chunksize=2)
     runs = timeouts = pairs = 0
     for r in results:
         ans = [(nm, a) for nm, a, _ in r["runs"] if a != "timeout"]
@@ -89,7 +101,7 @@ def run(tier):
                 contradiction = (j, sats, unsats)
                 break
         definitive = sum(1 for _, a in ans for x in a if x in ("sat", "unsat"))
-        chk.case(key=(r["idx"], len(ans)), nontrivial=len(ans) >= 3 and definitive > 0,
+        chk.case(key=(r["idx"], len(ans)), nontrivial=(len(ans) >= 3 or str(r["idx"]).startswith("dl")) and definitive > 0,
                  sample={"logic": r["logic"], "answers": {nm: a for nm, a in ans}} if len(ans) >= 3 else None)
         chk.obligation(contradiction is None)
         if contradiction:
